@@ -14,12 +14,18 @@ import Mathlib.Algebra.Order.Field.Basic
 import Mathlib.LinearAlgebra.Matrix.Kronecker
 import Mathlib.LinearAlgebra.Matrix.Trace
 import Mathlib.LinearAlgebra.Matrix.NonsingularInverse
+import Mathlib.Algebra.BigOperators.Field
+import Mathlib.Tactic.Positivity
+import Mathlib.Tactic.LinearCombination
 
 namespace Atomman.C11
 open Atomman.Gen Matrix Kronecker
 set_option linter.unusedSectionVars false
 set_option linter.unusedSimpArgs false
 set_option linter.unusedVariables false
+set_option linter.unnecessarySeqFocus false
+set_option linter.unusedTactic false
+set_option linter.unreachableTactic false
 
 /-! ## index facts -/
 
@@ -268,4 +274,207 @@ theorem rot_minor (T : M33 K) {C : T4 K} (h : MinorSymm C) : MinorSymm (rot T C)
     rw [(h g h' n m).2]; ring
 
 end field
+
+/-! ## concrete index values (for entry-by-entry evaluation) -/
+
+theorem pairOf_vals : pairOf 0 = (0, 0) ∧ pairOf 1 = (1, 1) ∧ pairOf 2 = (2, 2) ∧ pairOf 3 = (1, 2) ∧
+    pairOf 4 = (0, 2) ∧ pairOf 5 = (0, 1) := by decide
+theorem voigt_vals : voigt 0 0 = 0 ∧ voigt 0 1 = 5 ∧ voigt 0 2 = 4 ∧ voigt 1 0 = 5 ∧ voigt 1 1 = 1 ∧ voigt 1 2 = 3 ∧
+    voigt 2 0 = 4 ∧ voigt 2 1 = 3 ∧ voigt 2 2 = 2 := by decide
+theorem mult_vals : mult 0 = 1 ∧ mult 1 = 1 ∧ mult 2 = 1 ∧ mult 3 = 2 ∧ mult 4 = 2 ∧ mult 5 = 2 := by decide
+
+/-- `2·[voigt ij = voigt mn] = mult(mn)·(δ_im δ_jn + δ_in δ_jm)`. -/
+theorem delta_nat : ∀ i j m n : Fin 3, (if voigt i j = voigt m n then 2 else 0 : ℕ)
+    = mult (voigt m n) * ((if i = m ∧ j = n then 1 else 0) + (if i = n ∧ j = m then 1 else 0)) := by decide
+
+section field2
+variable {K : Type} [Field K]
+
+/-! ## strain energy, co-rotated strain, isotropic traces -/
+
+/-- `ε : C : ε` (twice the strain-energy density). -/
+def energy (C : T4 K) (e : M33 K) : K :=
+  sum3 fun i => sum3 fun j => sum3 fun k => sum3 fun l => e i j * C i j k l * e k l
+
+/-- `T ε Tᵀ`: a rank-2 tensor in the rotated axes. -/
+def conj (T e : M33 K) : M33 K := mmul (mmul T e) (mtr T)
+
+def vec (e : M33 K) : Fin 3 × Fin 3 → K := fun p => e p.1 p.2
+
+theorem energy_eq (C : T4 K) (e : M33 K) : energy C e = vec e ⬝ᵥ (toMat C *ᵥ vec e) := by
+  simp only [energy, sum3_eq, dotProduct, mulVec, Fintype.sum_prod_type, vec, toMat, Finset.mul_sum]
+  refine Finset.sum_congr rfl fun i _ => Finset.sum_congr rfl fun j _ => Finset.sum_congr rfl fun k _ =>
+    Finset.sum_congr rfl fun l _ => ?_
+  ring
+
+theorem vec_conj (T e : M33 K) : vec (conj T e) = kron T *ᵥ vec e := by
+  funext ⟨i, j⟩
+  simp only [vec, conj, mmul, mtr, sum3_eq, mulVec, dotProduct, Fintype.sum_prod_type, kroneckerMap_apply, of_apply,
+    Finset.sum_mul]
+  rw [Finset.sum_comm]
+  refine Finset.sum_congr rfl fun a _ => Finset.sum_congr rfl fun b _ => ?_
+  ring
+
+theorem conj_of (T e : M33 K) : Matrix.of (conj T e) = Matrix.of T * Matrix.of e * (Matrix.of T)ᵀ := by
+  rw [conj, mmul_of, mmul_of, mtr_of]
+
+theorem energy_rot (T : M33 K) (h : Orthogonal T) (C : T4 K) (e : M33 K) :
+    energy (rot T C) (conj T e) = energy C e := by
+  rw [energy_eq, energy_eq, vec_conj, rot_toMat]
+  have h1 : (kron T * toMat C * (kron T)ᵀ) *ᵥ (kron T *ᵥ vec e) = kron T *ᵥ (toMat C *ᵥ vec e) := by
+    rw [mulVec_mulVec, Matrix.mul_assoc, Matrix.mul_assoc, h.kron_tr_mul, Matrix.mul_one, ← mulVec_mulVec]
+  rw [h1, dotProduct_mulVec, vecMul_mulVec, h.kron_tr_mul, vecMul_one]
+
+/-- the two isotropic traces `C_iijj` and `C_ijij`. -/
+def tr1 (C : T4 K) : K := sum3 fun i => sum3 fun j => C i i j j
+def tr2 (C : T4 K) : K := sum3 fun i => sum3 fun j => C i j i j
+
+theorem tr1_eq_energy (C : T4 K) : tr1 C = energy C mone := by
+  simp [tr1, energy, sum3, mone]
+
+theorem conj_mone (T : M33 K) (h : Orthogonal T) : conj T mone = mone := by
+  have : mmul T mone = T := by
+    funext i j; simp [mmul, sum3_eq, mone]
+  rw [conj, this]; exact h
+
+theorem tr1_rot (T : M33 K) (h : Orthogonal T) (C : T4 K) : tr1 (rot T C) = tr1 C := by
+  rw [tr1_eq_energy, tr1_eq_energy]
+  conv_lhs => rw [← conj_mone T h]
+  exact energy_rot T h C mone
+
+theorem tr2_eq_trace (C : T4 K) : tr2 C = Matrix.trace (toMat C) := by
+  simp only [tr2, sum3_eq, Matrix.trace, Matrix.diag, Fintype.sum_prod_type, toMat]
+
+theorem tr2_rot (T : M33 K) (h : Orthogonal T) (C : T4 K) : tr2 (rot T C) = tr2 C := by
+  rw [tr2_eq_trace, tr2_eq_trace, rot_toMat, Matrix.trace_mul_cycle, h.kron_tr_mul, Matrix.one_mul]
+
+theorem bulkVoigt_eq_tr (C : T4 K) (hM : MajorSymm C) : bulkVoigt (cijklSetRaw C) = tr1 C / 9 := by
+  obtain ⟨p0, p1, p2, p3, p4, p5⟩ := pairOf_vals
+  simp only [bulkVoigt, cijklSetRaw_eq, tr1, sum3, p0, p1, p2, Nat.cast_ofNat]
+  rw [hM 1 1 0 0, hM 2 2 0 0, hM 2 2 1 1]
+  ring
+
+theorem shearVoigt_eq_tr [CharZero K] (C : T4 K) (hm : MinorSymm C) (hM : MajorSymm C) :
+    shearVoigt (cijklSetRaw C) = (3 * tr2 C - tr1 C) / 30 := by
+  obtain ⟨p0, p1, p2, p3, p4, p5⟩ := pairOf_vals
+  simp only [shearVoigt, cijklSetRaw_eq, tr1, tr2, sum3, p0, p1, p2, p3, p4, p5, Nat.cast_ofNat]
+  have e1 : C 1 0 1 0 = C 0 1 0 1 := by rw [(hm 1 0 1 0).1, (hm 0 1 1 0).2]
+  have e2 : C 2 0 2 0 = C 0 2 0 2 := by rw [(hm 2 0 2 0).1, (hm 0 2 2 0).2]
+  have e3 : C 2 1 2 1 = C 1 2 1 2 := by rw [(hm 2 1 2 1).1, (hm 1 2 2 1).2]
+  rw [hM 1 1 0 0, hM 2 2 0 0, hM 2 2 1 1, e1, e2, e3]
+  ring
+
+/-! ## 6x6 products versus double contractions -/
+
+/-- a sum over all nine index pairs of a quantity that only depends on the Voigt index. -/
+theorem sum_pairs (F : Fin 6 → K) : ∑ k : Fin 3, ∑ l : Fin 3, F (voigt k l) = ∑ b : Fin 6, (mult b : K) * F b := by
+  obtain ⟨v00, v01, v02, v10, v11, v12, v20, v21, v22⟩ := voigt_vals
+  obtain ⟨m0, m1, m2, m3, m4, m5⟩ := mult_vals
+  simp only [Fin.sum_univ_three, Fin.sum_univ_six, v00, v01, v02, v10, v11, v12, v20, v21, v22, m0, m1, m2, m3, m4, m5,
+    Nat.cast_one, Nat.cast_ofNat]
+  ring
+
+theorem mult_ne_zero [CharZero K] (a : Fin 6) : ((mult a : ℕ) : K) ≠ 0 := by
+  exact_mod_cast (mult_pos a).ne'
+
+/-- `C·S = 1` (6x6) gives `C : S = ½(δδ + δδ)` for the 3x3x3x3 representations. -/
+theorem contraction_of_inverse [CharZero K] (c s : M6 K)
+    (hcs : ∀ a d : Fin 6, ∑ b, c a b * s b d = if a = d then 1 else 0) (i j m n : Fin 3) :
+    (sum3 fun k => sum3 fun l => cijklGet c i j k l * sijklGet s k l m n)
+      = ((if i = m ∧ j = n then 1 else 0) + (if i = n ∧ j = m then 1 else 0)) / 2 := by
+  simp only [sum3_eq, cijklGet_eq, sijklGet_eq]
+  rw [sum_pairs (fun b => c (voigt i j) b * (s b (voigt m n) / ((mult b * mult (voigt m n) : ℕ) : K)))]
+  have hd := mult_ne_zero (K := K) (voigt m n)
+  have h1 : ∀ b : Fin 6, (mult b : K) * (c (voigt i j) b * (s b (voigt m n) / ((mult b * mult (voigt m n) : ℕ) : K)))
+      = (c (voigt i j) b * s b (voigt m n)) / (mult (voigt m n) : K) := by
+    intro b
+    have hb := mult_ne_zero (K := K) b
+    push_cast; field_simp
+  simp only [h1]
+  rw [← Finset.sum_div, hcs]
+  have := congrArg (Nat.cast : ℕ → K) (delta_nat i j m n)
+  push_cast at this
+  rw [div_eq_div_iff hd (by norm_num)]
+  rw [mul_comm _ ((mult (voigt m n) : ℕ) : K), ← this]
+  split_ifs <;> norm_num
+
+/-! ## building blocks: products of rank-2 tensors; signed permutations -/
+
+def p12 (A B : M33 K) : T4 K := fun i j k l => A i j * B k l
+def p13 (A B : M33 K) : T4 K := fun i j k l => A i k * B j l
+def p14 (A B : M33 K) : T4 K := fun i j k l => A i l * B j k
+
+theorem rot_p12 (T A B : M33 K) : rot T (p12 A B) = p12 (conj T A) (conj T B) := by
+  apply toMat_inj
+  have h : ∀ A B : M33 K, toMat (p12 A B) = vecMulVec (vec A) (vec B) := by
+    intro A B; ext ⟨i, j⟩ ⟨k, l⟩; simp [toMat, p12, vecMulVec_apply, vec]
+  rw [rot_toMat, h, h, mul_vecMulVec, vecMulVec_mul, vecMul_transpose, vec_conj, vec_conj]
+
+theorem rot_p13 (T A B : M33 K) : rot T (p13 A B) = p13 (conj T A) (conj T B) := by
+  apply toMat_inj
+  have h : ∀ A B : M33 K, toMat (p13 A B) = Matrix.of A ⊗ₖ Matrix.of B := by
+    intro A B; ext ⟨i, j⟩ ⟨k, l⟩; simp [toMat, p13, kroneckerMap_apply]
+  rw [rot_toMat, h, h, conj_of, conj_of, kron, ← kroneckerMap_transpose, ← mul_kronecker_mul, ← mul_kronecker_mul]
+
+/-- swapping the last two indices commutes with `rot`. -/
+theorem rot_swap34 (T : M33 K) (C : T4 K) : rot T (fun i j k l => C i j l k) = fun i j k l => rot T C i j l k := by
+  funext i j k l
+  simp only [rot_apply]
+  refine Finset.sum_congr rfl fun g _ => Finset.sum_congr rfl fun h _ => ?_
+  rw [Finset.sum_comm]
+  refine Finset.sum_congr rfl fun m _ => Finset.sum_congr rfl fun n _ => ?_
+  ring
+
+theorem rot_p14 (T A B : M33 K) : rot T (p14 A B) = p14 (conj T A) (conj T B) := by
+  have : p14 A B = fun i j k l => p13 A B i j l k := rfl
+  rw [this, rot_swap34, rot_p13]; rfl
+
+/-- `rot` is linear (pointwise operations on `T4 K`). -/
+theorem rot_add' (T : M33 K) (C D : T4 K) : rot T (C + D) = rot T C + rot T D := rot_add T C D
+theorem rot_smul' (T : M33 K) (a : K) (C : T4 K) : rot T (a • C) = a • rot T C := by
+  have : a • C = fun i j k l => a * C i j k l := rfl
+  rw [this, rot_smul]; rfl
+
+/-- signed permutation matrix: row `i` is `σ i • e_(π i)`. -/
+def spMat (π : Fin 3 → Fin 3) (σ : Fin 3 → K) : M33 K := fun i g => if g = π i then σ i else 0
+
+theorem rot_spMat (π : Fin 3 → Fin 3) (σ : Fin 3 → K) (C : T4 K) (i j k l : Fin 3) :
+    rot (spMat π σ) C i j k l = σ i * σ j * σ k * σ l * C (π i) (π j) (π k) (π l) := by
+  rw [rot_apply, Finset.sum_eq_single (π i), Finset.sum_eq_single (π j), Finset.sum_eq_single (π k),
+    Finset.sum_eq_single (π l)]
+  · simp [spMat]; ring
+  all_goals first
+    | (intro x _ hx; simp [spMat, hx])
+    | (intro hx; exact absurd (Finset.mem_univ _) hx)
+
+/-- 6x6 form of the tensor rotated by a signed permutation. -/
+theorem sp_entry (π : Fin 3 → Fin 3) (σ : Fin 3 → K) (c : M6 K) (a b : Fin 6) :
+    cijklSetRaw (rot (spMat π σ) (cijklGet c)) a b
+      = σ (pairOf a).1 * σ (pairOf a).2 * σ (pairOf b).1 * σ (pairOf b).2 *
+        c (voigt (π (pairOf a).1) (π (pairOf a).2)) (voigt (π (pairOf b).1) (π (pairOf b).2)) := by
+  rw [cijklSetRaw_eq, rot_spMat, cijklGet_eq]
+
+/-- two tensors with the minor symmetries are equal when their 6x6 pictures are. -/
+theorem eq_of_setRaw_eq {C D : T4 K} (hC : MinorSymm C) (hD : MinorSymm D) (h : cijklSetRaw C = cijklSetRaw D) :
+    C = D := by
+  have hC' : cijklGet (cijklSetRaw C) = C := by
+    funext i j k l; rw [cijklGet_eq, cijklSetRaw_eq]; exact minor_of_voigt C hC i j k l
+  have hD' : cijklGet (cijklSetRaw D) = D := by
+    funext i j k l; rw [cijklGet_eq, cijklSetRaw_eq]; exact minor_of_voigt D hD i j k l
+  rw [← hC', ← hD', h]
+
+theorem cijklGet_minor (c : M6 K) : MinorSymm (cijklGet c) := by
+  intro i j k l
+  simp only [cijklGet_eq]
+  exact ⟨by rw [voigt_symm i j], by rw [voigt_symm k l]⟩
+
+/-- the tensor of `c` is invariant under `T` as soon as the rotated 6x6 equals `c` entry by entry. -/
+theorem invariant_of_entries (T : M33 K) (c : M6 K)
+    (h : ∀ a b, cijklSetRaw (rot T (cijklGet c)) a b = c a b) : rot T (cijklGet c) = cijklGet c := by
+  apply eq_of_setRaw_eq (rot_minor T (cijklGet_minor c)) (cijklGet_minor c)
+  funext a b
+  rw [h a b, cijklSetRaw_eq, cijklGet_eq, voigt_pairOf, voigt_pairOf]
+
+end field2
+
 end Atomman.C11
